@@ -353,6 +353,29 @@ func opJSONScan(c *wire.Case, res *wire.Result) {
 		ms = v.Run(string(c.Texts[0]))
 	}()
 	res.Counters = map[string]int{"matches": len(ms)}
+	// lists a caller can build itself: the nil list, the empty list, an emptied list that keeps its capacity
+	for name, l := range map[string]engine.Matches{"nil": nil, "empty": {}, "emptied": ms[:0]} {
+		var j, f string
+		var p any
+		func() {
+			defer func() { p = recover() }()
+			j, f = l.Json(), l.FormattedJson()
+		}()
+		if p != nil {
+			res.Mismatch = fmt.Sprintf("rendering the %s list panicked: %v", name, p)
+			return
+		}
+		var dj, df any
+		if json.Unmarshal([]byte(j), &dj) != nil || json.Unmarshal([]byte(f), &df) != nil {
+			res.Mismatch = fmt.Sprintf("the %s list does not render as JSON: Json() %q FormattedJson() %q", name, j, f)
+			return
+		}
+		if !reflect.DeepEqual(dj, df) {
+			res.Mismatch = fmt.Sprintf("Json() and FormattedJson() of the %s list are different documents: %q and %q", name, j, f)
+			return
+		}
+		res.Counters["special_lists_rendered"]++
+	}
 	lo, hi := c.Ops, int(c.Seed)
 	for n := lo; n < hi && n <= len(ms); n++ {
 		sub := ms[:n]
